@@ -138,14 +138,14 @@ PROPS["C19"] = {
 TB_SCHED = ["the cooperative scheduler and the instrumented vatomic/vsync packages (vsched/, ~400 lines): goroutines are serialised, so the explored executions are the sequentially consistent interleavings of the instrumented operations (Go's sync/atomic is sequentially consistent)",
             "import-path substitution applied to a scratch copy of the working tree (found by scanning imports on every run)"]
 PROPS["C04"] = {
-    "components": [Sched("gauge", 3000, 100000, exhaustive_limit=3000)],
+    "components": [Sched("gauge", 3000, 100000, exhaustive_limit=3000, conformance="tr-gauge")],
     "rule": "gauge: 2-5 callers with outcomes success/failure/panic/failing fallback/panicking fallback race on one circuit with run and fallback limits in {-1,0,1,2,3}; every atomic operation and a marker inside the run/fallback functions is a scheduling point; "
             "random schedules plus DFS over all schedules of small 2-caller configurations; a run is distinct by (configuration, schedule) and every schedule of >= 2 callers is non-trivial",
     "trusted_base": TB_COMMON + TB_SCHED,
     "assumptions": ["limits are static during a run (live limit changes belong to C11)"],
 }
 PROPS["C14"] = {
-    "components": [Sched("rc", 3000, 200000, exhaustive_limit=3000)],
+    "components": [Sched("rc", 3000, 200000, exhaustive_limit=3000, conformance="tr-rc")],
     "rule": "rc: 2-4 threads each running one or two of Inc/RollingSumAt/GetBuckets/Reset on one RollingCounter, timestamps in the same bucket / adjacent buckets (racing roll-over) / a window apart; every atomic step is a scheduling point; random schedules plus DFS over all schedules of 2 threads x 1 op; distinct by (configuration, schedule)",
     "trusted_base": TB_COMMON + TB_SCHED,
     "assumptions": [],
